@@ -497,11 +497,18 @@ fn report_violation<P: Prop>(p: &P, seed: u64, idx: u64, v: &Violation, tier: Ti
     let mut steps = 0u64;
     let mut execs = 0u64;
     let mut progress = minimise;
-    while progress && execs < 400 {
+    // minimisation is bounded in re-executions and in wall time (VERIF_SHRINK_SECS, default 90 s per
+    // violation): the verdict never depends on it, only how small the replay file gets
+    let t0 = std::time::Instant::now();
+    let budget = std::env::var("VERIF_SHRINK_SECS").ok().and_then(|s| s.parse::<u64>().ok()).unwrap_or(90);
+    // and 300 s per run over all violations
+    static SHRINK_SPENT: std::sync::atomic::AtomicU64 = std::sync::atomic::AtomicU64::new(0);
+    let budget = budget.min(300u64.saturating_sub(SHRINK_SPENT.load(Ordering::Relaxed)));
+    while progress && execs < 400 && t0.elapsed().as_secs() < budget {
         progress = false;
         for cand in p.shrink(&case) {
             execs += 1;
-            if execs > 400 {
+            if execs > 400 || t0.elapsed().as_secs() >= budget {
                 break;
             }
             let out = run_isolated(p, &cand, ctx);
@@ -514,6 +521,7 @@ fn report_violation<P: Prop>(p: &P, seed: u64, idx: u64, v: &Violation, tier: Ti
             }
         }
     }
+    SHRINK_SPENT.fetch_add(t0.elapsed().as_secs(), Ordering::Relaxed);
     TRACE_SINK.lock().unwrap().clear();
     TRACE_ON.store(true, Ordering::Relaxed);
     let out = run_isolated(p, &case, ctx);
